@@ -118,11 +118,27 @@ def _callees_one_level(ctx, fi):
     """FuncInfos called from *fi* via self.x.m() / self.m() where the target class is in the package"""
     m = ctx.model
     out = []
+    from .common import local_assignments
+    la = local_assignments(fi.node)
+
+    def own_object(e):
+        d = dotted(e) or ''
+        if d.startswith('self'):
+            return True
+        # a local that holds an object of a package class just created, or an alias of self.<x>
+        if isinstance(e, ast.Name):
+            vals = [v for v in la.get(e.id, []) if isinstance(v, ast.AST)]
+            return bool(vals) and all(
+                (dotted(v) or '').startswith('self.') or
+                (isinstance(v, ast.Call) and any(ci.name == (dotted(v.func) or '').split('.')[-1] and
+                                                 ci.module is fi.module for ci in m.all_classes()))
+                for v in vals)
+        return False
     for c in own_calls(fi.node):
         if isinstance(c.func, ast.Attribute):
             for ci in m.all_classes():
                 if ci.module is fi.module and c.func.attr in ci.methods and \
-                        not c.func.attr.startswith('__') and (dotted(c.func.value) or '').startswith('self'):
+                        not c.func.attr.startswith('__') and own_object(c.func.value):
                     out.append(ci.methods[c.func.attr])
     return out
 
@@ -371,18 +387,15 @@ IO_METHODS = ('dump_stats', 'write', 'close', 'flush', 'writelines', 'read', 'un
 
 
 def _registered_features(ctx):
-    """feature classes in the order Runner.configure registers them"""
+    """feature classes in the order Runner.configure registers them (extraction shared with C11)"""
+    from .c11 import feature_order
     m = ctx.model
-    fi = m.func('runner.Runner.configure')
+    fi, order = feature_order(ctx)
     out = []
-    for st in fi.node.body:
-        for c in ast.walk(st):
-            if isinstance(c, ast.Call) and isinstance(c.func, ast.Attribute) and \
-                    c.func.attr == 'append' and dotted(c.func.value) == 'self.features' and c.args \
-                    and isinstance(c.args[0], ast.Call):
-                r = m.lookup(m.resolve_dotted(fi.module, dotted(c.args[0].func)))
-                if r is not None and hasattr(r, 'methods'):
-                    out.append(r)
+    for last in order:
+        r = m.lookup(m.resolve_dotted(fi.module, ctx.feature_dotted.get(last, last)))
+        if r is not None and hasattr(r, 'methods'):
+            out.append(r)
     return out
 
 
